@@ -171,7 +171,7 @@ def run(ctx: Ctx, env):
             ctx.fail("R2.quantifier-semantics", f"{label}|handler", f"{H.short(vcls)} has no visit_CollectionLambda", "")
             continue
         hci, fn = r
-        interp = env.interp(opaque_funcs=("odata_query.django.utils.reverse_relationship",))
+        interp = env.interp(opaque_funcs=(env.func_q("odata_query.django.utils", "reverse_relationship"),))
         interp.stub_methods = lambda name: name in ("_attempt_keywordify", "_gen_annotation_name")
 
         def setup(it, hci=hci, fn=fn, vcls=vcls):
